@@ -134,6 +134,22 @@ theorem klein_triangle_fails :
 
 /-! ### F12: the sphere -/
 
+/-- `sphereDistReal` with ordinary real literals (its source literals elaborate through `Num`'s `OfNat`) -/
+theorem sphereDistReal_r (r t1 p1 t2 p2 : ℝ) :
+    sphereDistReal r t1 p1 t2 p2 =
+      2 * r * Real.arcsin (Real.sqrt
+        (Real.sin (1 / 2 * ((p1 - Real.pi / 2) - (p2 - Real.pi / 2))) *
+            Real.sin (1 / 2 * ((p1 - Real.pi / 2) - (p2 - Real.pi / 2))) +
+          Real.cos (p1 - Real.pi / 2) * Real.cos (p2 - Real.pi / 2) *
+            Real.sin (1 / 2 * (t1 - t2)) * Real.sin (1 / 2 * (t1 - t2)))) := by
+  have h1 : ((1:ℕ):ℝ) = 1 := Nat.cast_one
+  show 2 * r * Real.arcsin (Real.sqrt
+        (Real.sin (((1:ℕ):ℝ) / 2 * ((p1 - Real.pi / 2) - (p2 - Real.pi / 2))) *
+            Real.sin (((1:ℕ):ℝ) / 2 * ((p1 - Real.pi / 2) - (p2 - Real.pi / 2))) +
+          Real.cos (p1 - Real.pi / 2) * Real.cos (p2 - Real.pi / 2) *
+            Real.sin (((1:ℕ):ℝ) / 2 * (t1 - t2)) * Real.sin (((1:ℕ):ℝ) / 2 * (t1 - t2)))) = _
+  rw [h1]
+
 theorem sphere_pole_distance_zero : ∀ r t1 t2 : ℝ, sphereDistReal r t1 0 t2 0 = 0 := by
   intro r t1 t2
   have hc : Real.cos (0 - Real.pi / 2) = 0 := by
@@ -153,10 +169,7 @@ theorem sphere_antipodal (r : ℝ) : sphereDistReal r 0 0 0 Real.pi = r * Real.p
   have hc : Real.cos (0 - Real.pi / 2) = 0 := by
     rw [zero_sub, Real.cos_neg, Real.cos_pi_div_two]
   have hs : (1 / 2 : ℝ) * ((0 - Real.pi / 2) - (Real.pi - Real.pi / 2)) = -(Real.pi / 2) := by ring
-  unfold sphereDistReal
-  simp only [NumR.ofNat_lit, Nat.cast_ofNat, Nat.cast_one]
-  set_option pp.explicit true in trace_state
-  rw [hs, hc, Real.sin_neg, Real.sin_pi_div_two]
+  rw [sphereDistReal_r, hs, hc, Real.sin_neg, Real.sin_pi_div_two]
   norm_num
   ring
 
@@ -165,5 +178,148 @@ theorem sphere_extent_exceeded :
   intro r hr
   rw [sphere_antipodal, cmp2_r, rvExtent1_r, sub_zero, abs_of_pos Real.pi_pos]
   nlinarith [Real.pi_pos]
+
+/-! ### the laws that do hold -/
+
+theorem so2Dist_le_pi (a b : ℝ) : so2Dist a b ≤ Real.pi := by
+  rw [so2Dist_r]
+  split_ifs <;> linarith [Real.pi_pos]
+
+theorem so2Dist_nonneg_of_abs (a b : ℝ) (h : |a - b| ≤ 2 * Real.pi) : 0 ≤ so2Dist a b := by
+  rw [so2Dist_r]
+  split_ifs <;> linarith [abs_nonneg (a - b)]
+
+theorem so2Dist_nonneg (a b : ℝ) (ha : so2InBounds a = true) (hb : so2InBounds b = true) :
+    0 ≤ so2Dist a b := by
+  rw [so2InBounds_r] at ha hb
+  exact so2Dist_nonneg_of_abs a b (abs_le.mpr ⟨by linarith, by linarith⟩)
+
+theorem so2Dist_comm (a b : ℝ) : so2Dist a b = so2Dist b a := by
+  rw [so2Dist_r, so2Dist_r, abs_sub_comm]
+
+theorem so2Dist_self (a : ℝ) : so2Dist a a = 0 := by
+  rw [so2Dist_r, sub_self, abs_zero, if_neg (not_lt.mpr Real.pi_pos.le)]
+
+/-! #### Möbius -/
+
+theorem mobiusDist_nonneg (u1 v1 u2 v2 : ℝ) (h1 : so2InBounds u1 = true)
+    (h2 : so2InBounds u2 = true) : 0 ≤ mobiusDist u1 v1 u2 v2 := by
+  rw [mobiusDist_r]
+  have := so2Dist_nonneg u1 u2 h1 h2
+  split_ifs
+  · linarith [abs_nonneg (v1 - v2)]
+  · linarith [abs_nonneg (-v2 - v1)]
+
+theorem mobiusDist_symm (u1 v1 u2 v2 : ℝ) : mobiusDist u1 v1 u2 v2 = mobiusDist u2 v2 u1 v1 := by
+  rw [mobiusDist_r, mobiusDist_r, abs_sub_comm u2 u1, so2Dist_comm u1 u2, abs_sub_comm v1 v2]
+  have e : -v2 - v1 = -v1 - v2 := by ring
+  rw [e]
+
+theorem mobiusDist_self (u v : ℝ) : mobiusDist u v u v = 0 := by
+  rw [mobiusDist_r, sub_self, abs_zero, if_pos Real.pi_pos.le, so2Dist_self, sub_self, abs_zero,
+    add_zero]
+
+/-- the reported extent of the Möbius space is `π + 2·imax` -/
+theorem mobiusExtent_r (imax : ℝ) (h : 0 ≤ imax) :
+    cmp2 Real.pi (rvExtent [-imax] [imax]) = Real.pi + 2 * imax := by
+  rw [cmp2_r, rvExtent1_r, abs_of_nonneg (by linarith)]
+  ring
+
+theorem mobiusDist_le_extent (u1 v1 u2 v2 imax : ℝ) (hv1 : |v1| ≤ imax) (hv2 : |v2| ≤ imax)
+    (h : 0 ≤ imax) :
+    mobiusDist u1 v1 u2 v2 ≤ cmp2 Real.pi (rvExtent [-imax] [imax]) := by
+  rw [mobiusExtent_r imax h, mobiusDist_r]
+  have := so2Dist_le_pi u1 u2
+  obtain ⟨a1, b1⟩ := abs_le.mp hv1
+  obtain ⟨a2, b2⟩ := abs_le.mp hv2
+  split_ifs
+  · have : |v1 - v2| ≤ 2 * imax := abs_le.mpr ⟨by linarith, by linarith⟩
+    linarith
+  · have : |-v2 - v1| ≤ 2 * imax := abs_le.mpr ⟨by linarith, by linarith⟩
+    linarith
+
+/-! #### Klein bottle -/
+
+theorem kleinDist_nonneg (u1 v1 u2 v2 : ℝ) (hu1 : 0 ≤ u1 ∧ u1 ≤ Real.pi)
+    (hu2 : 0 ≤ u2 ∧ u2 ≤ Real.pi) (hv1 : so2InBounds v1 = true) (hv2 : so2InBounds v2 = true) :
+    0 ≤ kleinDist u1 v1 u2 v2 := by
+  rw [kleinDist_r]
+  split_ifs with hc hp
+  · linarith [abs_nonneg (u1 - u2), so2Dist_nonneg v1 v2 hv1 hv2]
+  · rw [so2InBounds_r] at hv1 hv2
+    have hu : |u2 - u1| ≤ Real.pi := abs_le.mpr ⟨by linarith [hu1.2, hu2.1], by linarith [hu1.1, hu2.2]⟩
+    have := so2Dist_nonneg_of_abs (Real.pi - v2) v1 (abs_le.mpr ⟨by linarith, by linarith⟩)
+    linarith
+  · rw [so2InBounds_r] at hv1 hv2
+    have hu : |u2 - u1| ≤ Real.pi := abs_le.mpr ⟨by linarith [hu1.2, hu2.1], by linarith [hu1.1, hu2.2]⟩
+    have := so2Dist_nonneg_of_abs (-Real.pi - v2) v1 (abs_le.mpr ⟨by linarith, by linarith⟩)
+    linarith
+
+/-- the two reversed differences differ by `2π`, which `so2Dist` identifies on this range -/
+theorem so2Dist_rev (v1 v2 : ℝ) (h : -Real.pi ≤ v1 + v2) (h' : v1 + v2 ≤ Real.pi) :
+    so2Dist (-Real.pi - v2) v1 = so2Dist (Real.pi - v1) v2 := by
+  rw [so2Dist_r, so2Dist_r]
+  have e1 : |(-Real.pi - v2) - v1| = Real.pi + (v1 + v2) := by
+    rw [abs_of_nonpos (by linarith)]; ring
+  have e2 : |Real.pi - v1 - v2| = Real.pi - (v1 + v2) := by
+    rw [abs_of_nonneg (by linarith)]; ring
+  rw [e1, e2]
+  split_ifs <;> linarith
+
+/-- the seam reversal is applied to `v2` only, but the result is symmetric on in-bounds angles -/
+theorem klein_rev_symm (v1 v2 : ℝ) (hv1 : so2InBounds v1 = true) (hv2 : so2InBounds v2 = true) :
+    so2Dist (if 0 < v2 then Real.pi - v2 else -Real.pi - v2) v1 =
+      so2Dist (if 0 < v1 then Real.pi - v1 else -Real.pi - v1) v2 := by
+  rw [so2InBounds_r] at hv1 hv2
+  by_cases h1 : 0 < v1 <;> by_cases h2 : 0 < v2
+  · rw [if_pos h1, if_pos h2, so2Dist_r, so2Dist_r]
+    have e : Real.pi - v2 - v1 = Real.pi - v1 - v2 := by ring
+    rw [e]
+  · rw [if_pos h1, if_neg h2]
+    exact so2Dist_rev v1 v2 (by linarith) (by linarith)
+  · rw [if_neg h1, if_pos h2]
+    exact (so2Dist_rev v2 v1 (by linarith) (by linarith)).symm
+  · rw [if_neg h1, if_neg h2, so2Dist_r, so2Dist_r]
+    have e : -Real.pi - v2 - v1 = -Real.pi - v1 - v2 := by ring
+    rw [e]
+
+theorem kleinDist_symm (u1 v1 u2 v2 : ℝ) (hv1 : so2InBounds v1 = true)
+    (hv2 : so2InBounds v2 = true) : kleinDist u1 v1 u2 v2 = kleinDist u2 v2 u1 v1 := by
+  rw [kleinDist_r, kleinDist_r, abs_sub_comm u1 u2, klein_rev_symm v1 v2 hv1 hv2,
+    so2Dist_comm v1 v2]
+
+theorem kleinDist_self (u v : ℝ) : kleinDist u v u v = 0 := by
+  rw [kleinDist_r, sub_self, abs_zero, if_pos (by linarith [Real.pi_pos]), so2Dist_self, add_zero]
+
+/-- the reported extent of the Klein bottle is `2π` -/
+theorem kleinExtent_r : cmp2 (rvExtent [0] [Real.pi]) Real.pi = 2 * Real.pi := by
+  rw [cmp2_r, rvExtent1_r, sub_zero, abs_of_pos Real.pi_pos]
+  ring
+
+theorem kleinDist_le_extent (u1 v1 u2 v2 : ℝ) :
+    kleinDist u1 v1 u2 v2 ≤ cmp2 (rvExtent [0] [Real.pi]) Real.pi := by
+  rw [kleinExtent_r, kleinDist_r]
+  have hpi := Real.pi_pos
+  by_cases hc : |u2 - u1| ≤ Real.pi / 2
+  · rw [if_pos hc, abs_sub_comm u1 u2]
+    linarith [so2Dist_le_pi v1 v2]
+  · rw [if_neg hc]
+    linarith [abs_nonneg (u2 - u1),
+      so2Dist_le_pi (if 0 < v2 then Real.pi - v2 else -Real.pi - v2) v1]
+
+/-! ### the same extents as `maxExtent` of the model's `Space` constructors -/
+
+theorem maxExtent_mobius (imax rad : ℝ) :
+    maxExtent (Space.mobius imax rad) = cmp2 Real.pi (rvExtent [-imax] [imax]) := rfl
+
+theorem maxExtent_klein :
+    maxExtent (Space.klein : Space ℝ) = cmp2 (rvExtent [0] [Real.pi]) Real.pi := by
+  show cmp2 (rvExtent [((0:ℕ):ℝ)] [Real.pi]) Real.pi = _
+  rw [Nat.cast_zero]
+
+theorem maxExtent_sphere (r : ℝ) :
+    maxExtent (Space.sphere r) = cmp2 Real.pi (rvExtent [0] [Real.pi]) := by
+  show cmp2 Real.pi (rvExtent [((0:ℕ):ℝ)] [Real.pi]) = _
+  rw [Nat.cast_zero]
 
 end OmplModel.SpaceDist.Seam
